@@ -3,7 +3,7 @@
 tier=${1:-quick}
 cd /verif
 for p in $(/venv/bin/python -c "import json;print(' '.join(c['property_id'] for c in json.load(open('MANIFEST.json'))['checks']))"); do
-  out=$(/venv/bin/python -B -m bvstatic $p --tier $tier 2>&1); rc=$?
+  out=$(BVSTATIC_NO_E8=1 /venv/bin/python -B -m bvstatic $p --tier $tier 2>&1); rc=$?
   nk=$(echo "$out" | grep -c '^KNOWN-FINDING')
   nv=$(echo "$out" | grep -c '^VIOLATION')
   echo "$p rc=$rc known=$nk violations=$nv $(echo "$out" | grep ANALYSIS-ERROR | head -1)"
